@@ -133,6 +133,9 @@ def run_shard(task):
     env.prepare()
     import warnings
 
+    from oasv import cover
+
+    cover.start(env.REPO)
     warnings.filterwarnings("ignore")
     t0 = time.time()
     res = {"task": {k: task[k] for k in ("pid", "sub", "shard", "n", "seed")}, "records": [], "harness": None}
@@ -154,6 +157,7 @@ def run_shard(task):
     finally:
         os.chdir(task["scratch"])
         shutil.rmtree(cwd, ignore_errors=True)
+        cover.flush()
     res["wall_s"] = time.time() - t0
     return res
 
